@@ -187,6 +187,47 @@ pub fn gen_c06(seed: u64, thorough: bool) {
         push_u(&mut line, *rng.pick(&[33usize, 65, 129, 257]));
         println!("{}", line);
     }
+    gen_c06_history(&mut rng, if thorough { 300 } else { 16 });
+}
+
+/// the spectrum of a frame is that frame's cepstrum whatever came before: a lead-in frame with another cepstrum, then the
+/// cepstrum under test repeated (the coefficients glide in frame 1 and stand still in frame 2); the pulse response is read
+/// from frame 2 (seeded change C06g: a gain cached while the coefficients glide and not refreshed when they settle)
+pub fn gen_c06_history(rng: &mut Rng, n: usize) {
+    for i in 0..n {
+        let order = match i % 3 { 0 => rng.range(2, 6), 1 => rng.range(7, 24), _ => rng.range(2, 40) };
+        let nmcp = order + 1;
+        let alpha = if i % 5 == 0 { 0.0 } else { rng.uniform(0.0, 0.6) };
+        let rate = *rng.pick(&[8000usize, 16000, 44100, 48000]);
+        let a = random_cepstrum(rng, nmcp, alpha, 2.0);
+        let b = random_cepstrum(rng, nmcp, alpha, 2.0);
+        let mut mult = 1usize;
+        let (case, out) = loop {
+            let r = rate * mult;
+            let fperiod = r / 20; // the period at the 20 Hz floor: one pulse per frame, on its first sample
+            let case = VocCase {
+                nmcp, nlpf: 0, stage: 0, log_gain: false, rate: r, alpha, beta: 0.0, volume: 1.0, fperiod,
+                frames: vec![(20.0f64.ln(), a.clone(), vec![]), (20.0f64.ln(), b.clone(), vec![]), (20.0f64.ln(), b.clone(), vec![])],
+            };
+            let out = case.run();
+            let settled = match &out {
+                Ok(w) if w.iter().all(|x| x.is_finite()) && w.len() == 3 * fperiod => (1..3).all(|f| {
+                    let fr = &w[f * fperiod..(f + 1) * fperiod];
+                    let tot: f64 = fr.iter().map(|x| x * x).sum();
+                    let tail: f64 = fr[fperiod * 7 / 8..].iter().map(|x| x * x).sum();
+                    tail <= 1e-11 * tot
+                }),
+                _ => true,
+            };
+            if settled || mult >= 16 { break (case, out); }
+            mult *= 4;
+        };
+        let mut line = String::from("voc C06h");
+        case.push(&mut line);
+        push_wave(&mut line, &out);
+        push_u(&mut line, *rng.pick(&[33usize, 65, 129]));
+        println!("{}", line);
+    }
 }
 
 // ------------------------------------------------------------------------------------------ C07
